@@ -394,6 +394,13 @@ theorem arun_is_run (sched : List Choice) (s : State) : ∃ l, Async.run s sched
     rw [run_append, ← h1, ← h2]
     rfl
 
+/-- the fuel of `Async.consRun` is never what ends a block: from ANY state the consumer reaches a
+    suspension point (call over, awaiting client.emit, or parked and not notified) within it. -/
+theorem consRun_stops (s : State) : Async.stop (Async.consRun Async.fuel s) = true := by
+  cases hc : s.cpc <;> cases hi : s.iev <;> cases hv : s.cev <;> cases hn : s.conn <;>
+    cases hw : s.woken <;> cases hb : s.buf <;>
+    simp [Async.fuel, Async.consRun, Async.stop, blocked, consStep, finish, *]
+
 theorem inv_areach (sched : List Choice) : Inv (Async.run init sched) := by
   obtain ⟨l, hl⟩ := arun_is_run sched init
   rw [hl]
